@@ -693,10 +693,7 @@ def _io_harness(ctx, module):
         fn[c.__name__] = c
         fn['__globals__'][c.__name__] = c
 
-    def makeCoords(x, y, z, srid):
-        s_ = str(srid).upper()
-        return kinds['ENU' if s_.startswith('ENU') else 'GEO' if s_.startswith('GEO') else 'ECEF'](x, y, z)
-    fn['makeCoords'] = makeCoords
+    # (makeCoords is the repository's own function, interpreted: the readers build their positions through it)
 
     class O(orders.PyStub):
         isa = ('Obs',)
@@ -833,7 +830,7 @@ def rule_X(ctx):
     n_cases = 0
     stamps = [(2021, 12, 31, 23, 59, 59, 750), (2022, 1, 1, 0, 0, 0, 0), (2020, 2, 29, 12, 30, 15, 500)]
     geo = [[(2.12345678, 48.87654321, 35.5), (-179.99999999, -89.5, -10.25), (0.00000001, 0.0, 0.0)],
-           [(151.2, -33.86, 58.0), (151.21, -33.87, 59.0), (151.22, -33.88, 60.125)],
+           [(180.0, 90.0, 58.0), (-180.0, -90.0, 59.0), (179.99999999, 89.99999999, 60.125)],          # the ends of the longitude / latitude ranges
            [(10.0, 20.0, 1.0), (10.5, 20.5, 2.0), (11.0, 21.0, 3.0)]]
 
     def tracks():
